@@ -195,6 +195,13 @@ fn sem_case_inner(prop: &str, text: &str, orc: &Oracle, sorting: usize, labels: 
             }
             let r = guarded("biodivine(rewrite)", out, st, || BdAdf::from_parser_with_stm_rewrite(&parser).grounded());
             chk("biodivine(rewrite)", r, out);
+            // re-imported objects (JSON + repair step; node list + ordering + roots as the web service stores them)
+            let r = guarded("reimported(serde)", out, st, || crate::c14::roundtrip_serde(&Adf::from_parser(&parser)).grounded());
+            chk("reimported(serde)", r, out);
+            let r = guarded("reimported(node list)", out, st, || crate::c14::roundtrip_dblayer(&Adf::from_parser(&parser)).grounded());
+            chk("reimported(node list)", r, out);
+            let r = guarded("bridged+reimported(node list)", out, st, || crate::c14::roundtrip_dblayer(&BdAdf::from_parser(&parser).hybrid_step_opt(false)).grounded());
+            chk("bridged+reimported(node list)", r, out);
         }
         "C02" => {
             let want = orc.complete.clone();
@@ -221,6 +228,10 @@ fn sem_case_inner(prop: &str, text: &str, orc: &Oracle, sorting: usize, labels: 
             };
             let r = guarded("native", out, st, || Adf::from_parser(&parser).complete().collect::<Vec<_>>());
             chk("native", r, out);
+            let r = guarded("reimported(serde)", out, st, || crate::c14::roundtrip_serde(&Adf::from_parser(&parser)).complete().collect::<Vec<_>>());
+            chk("reimported(serde)", r, out);
+            let r = guarded("reimported(node list)", out, st, || crate::c14::roundtrip_dblayer(&Adf::from_parser(&parser)).complete().collect::<Vec<_>>());
+            chk("reimported(node list)", r, out);
             if let Some(bd) = guarded("biodivine:build", out, st, || BdAdf::from_parser(&parser)) {
                 let r = guarded("biodivine", out, st, || bd.complete().collect::<Vec<_>>());
                 chk("biodivine", r, out);
@@ -246,6 +257,17 @@ fn sem_case_inner(prop: &str, text: &str, orc: &Oracle, sorting: usize, labels: 
             let r = guarded("native.stable_with_prefilter", out, st, || Adf::from_parser(&parser).stable_with_prefilter().collect::<Vec<_>>());
             if let Some(r) = r {
                 cmp_models("native.stable_with_prefilter", &r, &want, n, out);
+            }
+            for (rl, how) in [("reimported(serde)", 0), ("reimported(node list)", 1)] {
+                let mk = || if how == 0 { crate::c14::roundtrip_serde(&Adf::from_parser(&parser)) } else { crate::c14::roundtrip_dblayer(&Adf::from_parser(&parser)) };
+                let l = format!("{}.stable", rl);
+                if let Some(r) = guarded(&l, out, st, || mk().stable().collect::<Vec<_>>()) {
+                    cmp_models(&l, &r, &want, n, out);
+                }
+                let l = format!("{}.stable_with_prefilter", rl);
+                if let Some(r) = guarded(&l, out, st, || mk().stable_with_prefilter().collect::<Vec<_>>()) {
+                    cmp_models(&l, &r, &want, n, out);
+                }
             }
             let bd = guarded("biodivine:build", out, st, || BdAdf::from_parser(&parser));
             let bd2 = guarded("biodivine(rewrite):build", out, st, || BdAdf::from_parser_with_stm_rewrite(&parser));
@@ -301,17 +323,19 @@ fn sem_case_inner(prop: &str, text: &str, orc: &Oracle, sorting: usize, labels: 
                 st.nontrivial += 1;
             }
             let bd = guarded("biodivine:build", out, st, || BdAdf::from_parser(&parser));
-            for which in 0..4 {
-                let label = ["native", "hybrid(pre-grounded)", "hybrid_opt(false)", "from_biodivine"][which];
+            for which in 0..6 {
+                let label = ["native", "hybrid(pre-grounded)", "hybrid_opt(false)", "from_biodivine", "reimported(serde)", "reimported(node list)"][which];
                 let mk = || -> Option<Adf> {
                     match which {
                         0 => Some(Adf::from_parser(&parser)),
                         1 => bd.as_ref().map(|b| b.hybrid_step()),
                         2 => bd.as_ref().map(|b| b.hybrid_step_opt(false)),
-                        _ => bd.as_ref().map(Adf::from_biodivine),
+                        3 => bd.as_ref().map(Adf::from_biodivine),
+                        4 => Some(crate::c14::roundtrip_serde(&Adf::from_parser(&parser))),
+                        _ => Some(crate::c14::roundtrip_dblayer(&Adf::from_parser(&parser))),
                     }
                 };
-                if which > 0 && bd.is_none() {
+                if (1..4).contains(&which) && bd.is_none() {
                     continue;
                 }
                 let l = format!("{}.heu_a", label);
